@@ -1,9 +1,11 @@
 /-
   Executable model of the flash-loan vault (contracts/liquidity_hub/vault-network/vault):
   deposit, withdraw (cw20 Send hook of the LP token), collect_protocol_fees, update_config,
-  flash_loan with an arbitrary borrower callback tree, after_trade, and plain transfers.
+  flash_loan with an arbitrary borrower callback tree, after_trade, and plain transfers;
+  and of the vault router (vault-network/vault_router): FlashLoan → vault.FlashLoan with the ROUTER as
+  borrower → NextLoan (payload messages executed as the router) → CompleteLoan → the vault's after_trade.
 
-  Accounts: 0,1,2 users · 3 the borrower contract (adversary) · 4 the fee collector.
+  Accounts: 0,1,2 users · 3 the borrower contract (adversary) · 4 the fee collector · 5 the vault router.
   `kind`: 0 = native vault asset, 1 = cw20 vault asset. The LP token is always a cw20
   (default cargo features). A failed operation returns `none`: CosmWasm reverts everything.
   Zero-amount *native* transfers fail (bank: "Cannot transfer empty coins amount") while zero-amount
@@ -44,13 +46,17 @@ structure St where
   depOn : Bool
   wdOn : Bool
   flOn : Bool
-  ab : List Nat         -- asset balances of accounts 0..4
+  ab : List Nat         -- asset balances of accounts 0..5 (5 = the vault router)
   lb : List Nat         -- LP balances of accounts 0..3
   assetSupply : Nat     -- total supply of the vault asset (ghost for native, real for cw20)
 deriving Repr, DecidableEq
 
 /-- `Fee::compute` on a Uint128 loan amount (fits: share < 1) -/
 def fee (share amt : Nat) : Nat := amt * share / E18
+
+/-- `GetPaybackAmount` -/
+def payback (s : St) (amount : Nat) : Nat :=
+  amount + fee s.fees.prot amount + fee s.fees.flash amount + fee s.fees.burn amount
 
 /-- what a borrower's callback can do (messages executed in order by the borrower contract) -/
 inductive Act where
@@ -193,6 +199,80 @@ end
 /-- a flash loan of `amount` taken by the borrower contract with callback tree `cb` -/
 def loanFrom (s : St) (amount : Nat) (cb : List Act) : Option St := run s (.loan amount cb)
 
+/-! ### the vault router -/
+
+/-- plain transfer of `n` of the asset from account `src` to account `dst` (bank send / cw20 transfer) -/
+def move (s : St) (src dst n : Nat) : Option St :=
+  if (n = 0 ∧ s.kind = 0) ∨ getN s.ab src < n then none
+  else some { s with ab := setN (setN s.ab src (getN s.ab src - n)) dst (getN (setN s.ab src (getN s.ab src - n)) dst + n) }
+
+/-- the router's `CompleteLoan{initiator, loaned_assets = [(vault, amount)]}` (sender = the router itself):
+    query the vault's `GetPaybackAmount(amount)` (checked adds), read the router's WHOLE balance of the
+    asset, `NegativeProfit` if it is below the payback, send the payback to the vault and — if non-zero —
+    the entire remainder to the initiator. -/
+def completeLoan (s : St) (initiator amount : Nat) : Option St :=
+  if payback s amount > U128MAX then none else
+  if getN s.ab 5 < payback s amount then none else
+  match payIn s 5 (payback s amount) with
+  | none => none
+  | some s1 =>
+    if getN s.ab 5 - payback s amount = 0 then some s1
+    else move s1 5 initiator (getN s.ab 5 - payback s amount)
+
+/-- what the payload of a router flash loan can do: messages executed in order AS THE ROUTER -/
+inductive RAct where
+  | fund (n : Nat)                -- the borrower contract (account 3) is told to send n of the asset to the router
+  | out (dst n : Nat)             -- the router sends n of the asset to user `dst`
+  | pay (n : Nat)                 -- the router sends n of the asset straight to the vault
+  | collect                       -- the router calls the vault's CollectProtocolFees
+  | deposit (n : Nat)             -- the router calls the vault's Deposit{n} (n attached / allowed)
+  | fail                          -- a message that errors
+  | adv (acts : List Act)         -- the borrower contract is told to run `acts` (its whole alphabet, see `Act`)
+  | complete (initiator n : Nat)  -- the router calls its own CompleteLoan early (sender = router: allowed)
+  | routerLoan (initiator n : Nat) (payload : List RAct)  -- router FlashLoan{[n], payload} sent by `initiator`
+deriving Repr
+
+mutual
+/-- one payload message. `.routerLoan initiator amount payload` is the whole router flash loan:
+    the vault's guards (enabled, no loan in flight, counter + 1), funds out to the ROUTER (account 5),
+    `NextLoan` = the payload's messages, `CompleteLoan`, then the vault's `after_trade` with the
+    balance recorded when the loan was taken. (Inside a payload the sender of a further router
+    FlashLoan is the router itself: `initiator = 5`; the vault refuses it anyway.) -/
+def rrun : St → RAct → Option St
+  | s, .fund n => move s 3 5 n
+  | s, .out dst n => if dst ≥ 3 then none else move s 5 dst n
+  | s, .pay n => payIn s 5 n
+  | s, .collect => collect s
+  | s, .deposit n => deposit s 5 n n
+  | _, .fail => none
+  | s, .adv acts => runs s acts
+  | s, .complete initiator n => if initiator ≥ 4 then none else completeLoan s initiator n
+  | s, .routerLoan initiator amount payload =>
+    if !s.flOn then none else
+    if s.ctr ≠ 0 then none else
+    if s.ctr + 1 > 4294967295 then none else
+    match payOut { s with ctr := s.ctr + 1 } 5 amount with
+    | none => none
+    | some s1 =>
+      match rruns s1 payload with
+      | none => none
+      | some s2 =>
+        match completeLoan s2 initiator amount with
+        | none => none
+        | some s3 => afterTrade s3 s.bal amount
+/-- the payload's messages, in order; the first failure reverts everything -/
+def rruns : St → List RAct → Option St
+  | s, [] => some s
+  | s, a :: as =>
+    match rrun s a with
+    | none => none
+    | some s' => rruns s' as
+end
+
+/-- a flash loan of `amount` taken through the vault router by `initiator` with payload `payload` -/
+def routerLoanFrom (s : St) (initiator amount : Nat) (payload : List RAct) : Option St :=
+  rrun s (.routerLoan initiator amount payload)
+
 /-- top-level operations (each is one transaction) -/
 inductive Op where
   | deposit (who amount sent : Nat)
@@ -202,6 +282,12 @@ inductive Op where
   | setToggles (dep wd fl : Bool)     -- UpdateConfig{…_enabled} by the owner
   | loan (amount : Nat) (cb : List Act)
   | donate (who n : Nat)              -- plain transfer of the asset to the vault
+  | routerLoan (initiator amount : Nat) (payload : List RAct)  -- router FlashLoan{[amount], payload}
+  | routerLoanNone (who : Nat) (payload : List RAct)   -- router FlashLoan{[], payload}: nothing happens
+  | routerLoanMulti (who a1 a2 : Nat) (payload : List RAct)  -- router FlashLoan with two assets
+  | fundRouter (who n : Nat)          -- plain transfer of the asset to the router
+  | nextLoanBy (who amount : Nat) (payload : List RAct)   -- router NextLoan called directly by account `who`
+  | completeLoanBy (who initiator amount : Nat)           -- router CompleteLoan called directly by `who`
 deriving Repr
 
 def step (s : St) : Op → Option St
@@ -212,6 +298,17 @@ def step (s : St) : Op → Option St
   | .setToggles d w f => some { s with depOn := d, wdOn := w, flOn := f }
   | .loan amount cb => loanFrom s amount cb
   | .donate who n => if who ≥ 4 then none else payIn s who n
+  | .routerLoan initiator amount payload =>
+    if initiator ≥ 4 then none else routerLoanFrom s initiator amount payload
+  -- zero assets: the router emits no message at all (the payload is NOT run)
+  | .routerLoanNone _ _ => some s
+  -- more than one asset: NestedFlashLoansDisabled
+  | .routerLoanMulti _ _ _ _ => none
+  | .fundRouter who n => if who ≥ 4 then none else move s who 5 n
+  -- NextLoan: the sender must be the factory-registered vault; accounts 0..3 never are
+  | .nextLoanBy _ _ _ => none
+  -- CompleteLoan: the sender must be the router itself; accounts 0..3 never are
+  | .completeLoanBy _ _ _ => none
 
 /-- a failed transaction leaves the state untouched -/
 def apply (s : St) (op : Op) : St := (step s op).getD s
@@ -222,9 +319,5 @@ def init (kind : Nat) (f : VFees) (ab : List Nat) : St :=
   { kind := kind, bal := 0, pend := 0, allTime := 0, burned := 0, sup := 0, lpVault := 0, ctr := 0,
     fees := f, depOn := true, wdOn := true, flOn := true, ab := ab, lb := [0, 0, 0, 0],
     assetSupply := ab.foldl (· + ·) 0 }
-
-/-- `GetPaybackAmount` -/
-def payback (s : St) (amount : Nat) : Nat :=
-  amount + fee s.fees.prot amount + fee s.fees.flash amount + fee s.fees.burn amount
 
 end WW.Vault
